@@ -64,6 +64,13 @@ class C01(Check):
             probes.rec("pred", agent=self._registrant.simulation_id, pred_x=np.array(results.pred_x, dtype=float).copy())  # noqa: SLF001
 
         wrap_method(EstPredictRegistration, "processResults", after=after_pred)
+        from resonaate.sensors.sensor_base import Sensor
+
+        def before_collect(self, *a, **k):
+            # what the copy of the sensor that actually takes the observation (inside the task job) has queued
+            probes.rec("bias_seen", sensor=int(self.host.simulation_id), events=[int(ev.id) for ev in self.host.sensor_time_bias_event_queue])
+
+        wrap_method(Sensor, "collectObservations", before=before_collect, tag="c01-bias-seen")
 
     # -- generation ---------------------------------------------------------------------------
     def gen(self, rng: random.Random, tier: str, index: int) -> dict:
@@ -318,6 +325,7 @@ class C01(Check):
                                      "detail": f"{etype} #{eid} also delivered to {[(d['handler_type'], d['handler_id']) for d in others]}"})
                 elif etype in DURATION:
                     judged_here = False
+                    bias_seen = probes.of_kind("bias_seen")
                     for k in range(1, nrun + 1):
                         if aborted and k >= probes.STATE["step"]:
                             break
@@ -339,6 +347,16 @@ class C01(Check):
                             wrong_s = [sid for sid, q in (sn.get("bias_queue", {}) if sn else {}).items() if eid in q and sid != ev["scope_instance_id"]]
                             if wrong_s:
                                 viol.append({"clause": "event-misdelivered", "key": etype, "detail": f"time bias #{eid} for sensor {ev['scope_instance_id']} queued on sensors {wrong_s} in step {k}"})
+                            # where the bias takes effect: the sensor copy that collects observations inside this step's task job
+                            seen = [r2["events"] for r2 in bias_seen if r2["step"] == k and r2["sensor"] == ev["scope_instance_id"]]
+                            if seen and not near:
+                                cnt["time_bias_judged_inside_task_job"] = cnt.get("time_bias_judged_inside_task_job", 0) + 1
+                                in_job = any(eid in q for q in seen)
+                                where = f"sensor_time_bias #{eid} [{ev['start_time']} .. {ev.get('end_time')}] step {k}: the sensor copy observing inside the task job"
+                                if epoch_in and not all(eid in q for q in seen):
+                                    viol.append({"clause": "duration-inactive-inside-interval", "key": etype + "/in-task-job", "detail": f"{where} does not have the bias queued although the step's epoch lies inside the interval"})
+                                if no_overlap and in_job:
+                                    viol.append({"clause": "duration-active-outside-interval", "key": etype + "/in-task-job", "detail": f"{where} has the bias queued although the interval does not overlap the step"})
                         if near:
                             res["indeterminate"] += 1
                             continue
